@@ -5,6 +5,11 @@ ROOT = os.path.dirname(os.path.dirname(os.path.abspath(__file__)))
 ALL = ["C%02d" % i for i in range(1, 21)]
 
 CHECKS = {
+ "C05": dict(
+   technique="TLA+ ReturnPaths spec: body grammar, definitional interpreter and structural fall-through rule, proved equivalent by TLC on every enumerated body; bodies rendered as function/method/function literal and compiled by the real front end; accepted bodies executed and compared with the interpreter",
+   category="model_checking",
+   text="All 11840 bodies of the grammar up to depth 2 (if/else-if/else, match with and without default, while/for/while-true with break/continue, early returns): CanFallOff => rejected, in all three declaration forms (quick: one representative per control-flow signature); accepted bodies are run on every parameter vector and must print the value of the return statement the specification's path takes.",
+   note="Each condition tests its own parameter so syntactic paths are feasible; rejection of bodies that cannot fall off is allowed (one-directional property) and counted."),
  "C20": dict(
    technique="TLA+ transcription of the TOML writer and parser over character sequences with RoundTrips/CommentInert; TLC-enumerated tables over 22 value classes and all short raw contents replayed into the real toml package (write, insert trivia, parse, DeepEqual; parse under recover)",
    category="model_checking",
